@@ -395,7 +395,7 @@ static int midi_nibble(struct context_data *ctx, struct channel_data *xc,
 			CLAMP(byte, 0, 127);
 			break;
 		case 'y':			/* Computed panning */
-			byte = xc->info_finalpan >> 1;
+			byte = xc->macro.finalpan >> 1;
 			CLAMP(byte, 0, 127);
 			break;
 		case 'a':			/* Ins MIDI Bank hi */
@@ -1383,6 +1383,9 @@ static void process_pan(struct context_data *ctx, int chn, int act)
 	}
 
 	CLAMP(finalpan, 0, 255);
+#ifndef LIBXMP_CORE_DISABLE_IT
+	xc->macro.finalpan = finalpan;
+#endif
 
 	if (s->format & XMP_FORMAT_MONO || xc->pan.surround) {
 		finalpan = 0;
